@@ -59,6 +59,20 @@ def make_expr(ch, params):
         body = [('local.get', 0), ('%s.const' % t, a), ('%s.%s' % (t, op1),), ('%s.const' % t, b), ('%s.%s' % (t, op2),)]
         m.funcs.append(Func(m.type_index((t,), (t,)), [], body))
         m.exports.append((b'peep%d' % k, 'func', len(m.funcs) - 1))
+    # an operator fed by an immediate that is (or looks like) its identity / absorbing element: x+0, x|0, x<<0, x*1, x&-1, x/1, x/-1,
+    # x%1, x%-1, x*0, x&0, x<<width, comparisons against 0 / -1 / MIN / MAX - the windows a size optimisation would fold
+    for k in range(10):
+        t, w = ch.pick(((I32, 32), (I64, 64)))
+        cv = ch.pick((0, 0, 1, -1, -1, w, w - 1, 1 << (w - 1), (1 << (w - 1)) - 1, 2))
+        op = ch.pick(BIN + ('eq', 'ne', 'lt_s', 'lt_u', 'gt_s', 'gt_u', 'le_s', 'le_u', 'ge_s', 'ge_u'))
+        cmpop = op in ('eq', 'ne') or op[:2] in ('lt', 'gt', 'le', 'ge')
+        c = ('%s.const' % t, cv & ((1 << w) - 1))
+        body = [('local.get', 0), c, ('%s.%s' % (t, op),)] if ch.below(3) else [c, ('local.get', 0), ('%s.%s' % (t, op),)]
+        if ch.below(4) == 0:
+            body += [('i32.eqz',) if (cmpop or t == I32) else ('i64.eqz',)]
+            cmpop = True
+        m.funcs.append(Func(m.type_index((t,), (I32 if cmpop else t,)), [], body))
+        m.exports.append((b'ident%d' % k, 'func', len(m.funcs) - 1))
     # operations whose result is thrown away (drop, or a local that is never read): the instruction still traps when the
     # specification says so - an optimising C compiler may only remove what has no effect
     for k in range(4):
@@ -98,6 +112,10 @@ def make_expr(ch, params):
         ps = m.func_type(fi)[0]
         for _ in range(params.get('nargs', 12) if ps else 1):
             script.append(('call', 0, e, gen.gen_args(ch, ps)))
+        if n.startswith(b'ident'):
+            wbits = 32 if ps[0] == I32 else 64
+            for v in (0, 1, 2, (1 << wbits) - 1, 1 << (wbits - 1), (1 << (wbits - 1)) - 1, (1 << (wbits - 1)) + 1, wbits, 0x0123456789abcdef):
+                script.append(('call', 0, e, [v & ((1 << wbits) - 1)]))
         if n.startswith(b'peep'):
             wbits = 32 if ps[0] == I32 else 64
             for v in (0x80, 0x100, 0x8000, 0x10000, 0x800000, 0x1000000, 0x7f, 0xff, 0xffff, 1 << (wbits - 1), (1 << wbits) - 1, 0x0123456789abcdef):
